@@ -13,6 +13,7 @@ import (
 	"fmt"
 	"sort"
 	"strings"
+	"sync"
 
 	"buf.build/gen/go/bufbuild/protovalidate/protocolbuffers/go/buf/validate"
 	"github.com/pentops/j5/gen/j5/schema/v1/schema_j5pb"
@@ -105,6 +106,59 @@ func runHashHistories(cfg *vh.Config, r *vh.Rand, res *vh.Result, cf *vh.CasesFi
 			}
 		}
 		res.Sample(map[string]any{"stream": "hash-history", "calls": hist}, 10)
+		*caseNo++
+	}
+}
+
+// runHashConcurrent: NewHash called by several goroutines at overlapping times, each on its own tuples; every result must
+// be SHA-1 of the caller's own concatenation (a shared hasher or digest buffer shows up as another caller's id or a torn mix).
+func runHashConcurrent(cfg *vh.Config, r *vh.Rand, res *vh.Result, distinct vh.Distinct, caseNo *int) {
+	rounds := cfg.Scale(6, 60)
+	for k := 0; k < rounds; k++ {
+		ng := r.Range(4, 8)
+		iters := 1500
+		tuples := make([][]hashTuple, ng)
+		for g := range tuples {
+			for i := 0; i < 8; i++ {
+				tuples[g] = append(tuples[g], hashTuple{fmt.Sprintf("ns%d-%d-%d", k, g, i), []string{fmt.Sprintf("in%d", r.Intn(1000)), strings.Repeat("x", r.Intn(40))}})
+			}
+		}
+		type miss struct {
+			g, it int
+			t     hashTuple
+			got   id62.UUID
+		}
+		misses := make([][]miss, ng)
+		gate := make(chan struct{})
+		var wg sync.WaitGroup
+		for g := 0; g < ng; g++ {
+			g := g
+			wg.Add(1)
+			go func() {
+				defer wg.Done()
+				<-gate
+				for it := 0; it < iters; it++ {
+					t := tuples[g][it%len(tuples[g])]
+					if got := id62.NewHash(t.ns, t.ins...); got != refHash(t) && len(misses[g]) < 2 {
+						misses[g] = append(misses[g], miss{g, it, t, got})
+					}
+				}
+			}()
+		}
+		close(gate)
+		wg.Wait()
+		res.Distribution["hash-concurrent-call"] += ng * iters
+		distinct.Add(fmt.Sprintf("hc:%d:%d", k, ng))
+		for _, ml := range misses {
+			for _, m := range ml {
+				want := refHash(m.t)
+				res.Fail(vh.Failure{Case: *caseNo, Stream: "hash-concurrent", Sig: "C20 hash differs when NewHash is called by several goroutines at once",
+					Clause: "hash-derived identifiers are a pure function of namespace and inputs",
+					Input:  map[string]any{"goroutines": ng, "iterations_each": iters, "goroutine": m.g, "iteration": m.it, "namespace": m.t.ns, "inputs": m.t.ins},
+					Got:    fmt.Sprintf("%x", m.got[:]), Want: fmt.Sprintf("%x", want[:])})
+			}
+		}
+		res.Cases = append(res.Cases, vh.CaseRec{Case: *caseNo, Stream: "hash-concurrent", Input: map[string]any{"goroutines": ng, "iterations_each": iters}, Impl: "compared with SHA-1 per call"})
 		*caseNo++
 	}
 }
@@ -239,6 +293,7 @@ func runEmittedPatterns(cfg *vh.Config, r *vh.Rand, res *vh.Result, cf *vh.Cases
 			continue
 		}
 		found := map[string][]string{}
+		backAll := map[string]string{}
 		for _, f := range files {
 			msgs := f.Messages()
 			for m := 0; m < msgs.Len(); m++ {
@@ -254,6 +309,7 @@ func runEmittedPatterns(cfg *vh.Config, r *vh.Rand, res *vh.Result, cf *vh.Cases
 				}
 				sort.Strings(names)
 				for _, n := range names {
+					backAll[n] = back[n]
 					if back[n] != "id62" {
 						res.Fail(vh.Failure{Case: *caseNo, Stream: "emit", Sig: "C20 key:id62 field is not recognised as id62 on read-back",
 							Clause: "PatternString is ... recognised on read-back", Input: map[string]any{"j5s": src, "field": n}, Got: back[n], Want: "id62"})
@@ -289,6 +345,19 @@ func runEmittedPatterns(cfg *vh.Config, r *vh.Rand, res *vh.Result, cf *vh.Cases
 			for _, p := range pats {
 				cf.Terms = append(cf.Terms, fmt.Sprintf("CEmit %s", vh.BytesTerm(p)))
 				res.Cases = append(res.Cases, vh.CaseRec{Case: *caseNo, Stream: "emit", Input: map[string]any{"field": n, "j5s": src}, Impl: p})
+			}
+			// the reader's recognition against its model (Id62.reads_back_as over the regenerated table): the one
+			// pattern the field carries, and whether the reflected schema has it as a key of format id62
+			if b, seen := backAll[n]; seen && len(pats) >= 1 {
+				one := true
+				for _, p := range pats {
+					one = one && p == pats[0]
+				}
+				if one {
+					cf.Terms = append(cf.Terms, fmt.Sprintf("CReadback %s %s", vh.BytesTerm(pats[0]), vh.BoolTerm(b == "id62")))
+					res.Cases = append(res.Cases, vh.CaseRec{Case: *caseNo, Stream: "readback", Input: map[string]any{"field": n, "j5s": src}, Impl: b})
+					res.Count("readback-case")
+				}
 			}
 		}
 		res.Sample(map[string]any{"stream": "emit", "j5s": src, "patterns": found}, 12)
